@@ -212,8 +212,10 @@ def gen_case(rng, max_ops, mirror=False, ncomp=5):
                 m = rng.weighted([("none", 2), ("dupid", 4), ("setid", 3), ("gen", 2), ("freeadd", 3), ("freedel", 3),
                                   ("freedup", 2), ("freelive", 3), ("len", 3), ("alen", 2), ("byte", 4), ("addbyte", 1),
                                   ("delbyte", 1), ("delval", 2), ("addval", 2), ("poison", 3), ("delrow", 3), ("duprow", 3),
-                                  ("delarch", 2), ("duparch", 2), ("emptyarch", 3), ("freeold", 3), ("freegenmax", 2)])
+                                  ("delarch", 2), ("duparch", 2), ("emptyarch", 3), ("freeold", 3), ("freegenmax", 2), ("idswap", 4), ("dupfree", 4)])
                 a = [rng.below(8) for _ in range(4)]
+                if m == "idswap":
+                    return "idswap %d" % rng.choice([1, 1, 2, 3])
                 if m == "setid":
                     return "setid %d %d %d %d" % (a[0], a[1], rng.below(12), rng.below(3))
                 if m == "gen":
@@ -1109,6 +1111,7 @@ class RefWorlds:
             if int(t[1]) in self.maps and not (ret or "").startswith("panic"):
                 fails.append(("C05", "Batch::new accepted columns of unequal length (%s): the column store now holds columns that disagree with the shared length" % ret))
                 fails.append(("C18", "Batch::new accepted columns of unequal length (%s)" % ret))
+                fails.append(("C04", "Batch::new accepted columns of unequal length (%s): the values beyond the shortest column are stored outside every row and never dropped, or rows are dropped that were never stored" % ret))
                 fails.append(("C01", "Batch::new accepted columns of unequal length (%s)" % ret))
         elif k == "rem":
             ws = int(t[1])
@@ -1628,6 +1631,10 @@ def oracle_case(impl_case):
                         pa = {int(po[1]), int(po[2])} if po[0] != "srd" else {int(po[2]), int(po[3])}
                         if pa == {a, b} and po[0] != "clf":
                             fails.append((i, "C16", "copy made by %s does not compare equal to its source" % po[0]))
+                            # the properties about the copies say so themselves: "clone() yields a world equal to the
+                            # original" (C10), "yields a world that compares equal to the original" (C06)
+                            fails.append((i, "C10" if po[0] == "cln" else "C06",
+                                          "the copy made by %s does not compare equal to its source (%s)" % (po[0], st["ret"])))
         prev_lines = {ws: w["lines"] for ws, w in st["worlds"].items()}
         prev_live = {ws: set(w["live"]) for ws, w in st["worlds"].items()}
     if impl_case["audit"] is not None and impl_case["audit"].strip() != "audit live=[] double=[]":
